@@ -152,6 +152,7 @@ class Unit:
         self.pre_include = d.get("pre_include", [])  # -include headers (relative to /verif)
         self.extra_inc = d.get("extra_inc", [])      # extra -I before repo include (relative to /verif)
         self.cflags = d.get("cflags", [])
+        self.fp_restrict = d.get("fp_restrict", {})  # call-site label -> exact target list (goto-instrument inserts assert(false) for any other target)
         self.native = d.get("native", True)
         self.native_cflags = d.get("native_cflags", [])
         self.native_stubs = d.get("native_stubs", None)
@@ -203,6 +204,10 @@ class Unit:
             rc, so, se, *_ = run(cmd, 300)
             if rc != 0:
                 raise RuntimeError("goto-instrument generate-function-body failed: %s %s" % (so, se))
+        for site, targets in self.fp_restrict.items():
+            rc, so, se, *_ = run(["goto-instrument", "--restrict-function-pointer", "%s/%s" % (site, ",".join(targets)), out, out], 300)
+            if rc != 0:
+                raise RuntimeError("goto-instrument restrict-function-pointer %s failed: %s %s" % (site, so[-800:], se[-800:]))
         for fn in self.havoc:
             rc, so, se, *_ = run(["goto-instrument", "--remove-function-body", fn, out, out], 300)
             if rc != 0:
